@@ -15,17 +15,22 @@ CONSTANTS Kinds,            \* subset of {"rm", "rcm"}
           MaxR, MaxC,       \* 0..MaxR runners, 0..MaxC closers registered before Run
           MaxLate,          \* AddCloser calls made at any later moment
           MaxClose,         \* Close calls
-          GraceTicks, MaxT, \* grace period and horizon, in ticks
+          GraceSet, MaxT,   \* configured grace periods to explore (ticks; 0 is a legal configuration) and horizon
           RClasses, CClasses,  \* results a runner / closer may return
           AtomicAddCloser,  \* TRUE: AddCloser as repaired (closing checked before AND again under the lock);
                             \* FALSE: as first written (checked only before taking the lock)
+          GraceRecheck,     \* TRUE: the grace closer as repaired (after its timer fired it looks at closeFatalShutdown
+                            \* first and returns when that is closed); FALSE: as found (timer and channel raced)
           Monitor,          \* TRUE: every visible step feeds the contract monitor c (exhaustive checking);
                             \* FALSE: c is left alone (trace validation of this model against the code)
           Defect            \* "none" | "errsEarly" | "releaseLate" | "filterCtxErr" | "closersEarly" | "noWaitClose"
                             \* | "addNoOuterCheck" (RunnerCloserManager.Add without its own running check)
                             \* | "skipIfCtxDone" (RunnerManager.Run returns nil at once when its context has already ended)
+                            \* | "closeNonAtomic" (Close looks at closeCh and closes it in two steps instead of the closed CAS)
+                            \* | "noFatalIfNonPositive" (a configured grace period <= 0 does not install the fatal action)
+                            \* | "filterCloserCanceled" (closer errors that are / wrap Canceled are dropped like runner errors)
 
-VARIABLES kind, nr, nc, grace,                  \* configuration
+VARIABLES kind, nr, nc, grace,                  \* configuration (grace: configured period in ticks, -1: none)
           now,
           running, closing, closeCh, stopped, closeFS, lockRun,  \* closer.go:54-59 (closed is subsumed by closeCh)
           pcan, ctx,                            \* parent context cancelled; inner manager's context cancelled
@@ -54,7 +59,8 @@ KCId == <<"kc1", "kc2", "kc3", "kc4", "kc5", "kc6">>
 Hidden == hpc # "none"                           \* closer.go:161-170: decided when the inner manager is started
 NInner == Len(rl) + (IF Hidden THEN 1 ELSE 0)    \* runner.go: len(r.runners), re-read by the collection loop
 Extra == nr + 1                                  \* the runner offered to Add after Run / Close
-GraceN == IF grace THEN 1 ELSE 0
+Installed == grace >= 0 /\ ~(Defect = "noFatalIfNonPositive" /\ grace <= 0)   \* closer.go:74-94
+GraceN == IF Installed THEN 1 ELSE 0
 LateIds == DOMAIN apc                            \* closers offered through AddCloser calls of the behaviour
 E(name) == [ev |-> name, now |-> now]
 
@@ -62,7 +68,7 @@ Init ==
   /\ kind \in Kinds
   /\ nr \in 0..MaxR
   /\ nc \in (IF kind = "rcm" THEN 0..MaxC ELSE {0})
-  /\ grace \in (IF kind = "rcm" THEN BOOLEAN ELSE {FALSE})
+  /\ grace \in (IF kind = "rcm" THEN {-1} \cup GraceSet ELSE {-1})
   /\ now = 0
   /\ running = FALSE /\ closing = FALSE /\ closeCh = FALSE /\ stopped = FALSE /\ closeFS = FALSE /\ lockRun = FALSE
   /\ pcan = FALSE /\ ctx = FALSE
@@ -76,7 +82,7 @@ Init ==
   /\ apc = [j \in (nc + 1)..(nc + MaxLate) |-> "idle"]
   /\ kpc = [k \in 1..MaxClose |-> "idle"]
   /\ nrun = 0
-  /\ c = Feed(CReset([kind |-> kind, G |-> IF grace THEN GraceTicks ELSE -1, pdl |-> -1,
+  /\ c = Feed(CReset([kind |-> kind, G |-> grace, pdl |-> -1,
                       nr |-> nr + 1, nc |-> nc + MaxLate, r0 |-> nr, nruns |-> 2, ncl |-> MaxClose]),
               [x \in 1..(2 * nc) |-> IF x % 2 = 1 THEN [ev |-> "addcloser.call", j |-> (x + 1) \div 2, now |-> 0]
                                                    ELSE [ev |-> "addcloser.ret", j |-> x \div 2, ok |-> TRUE, now |-> 0]])
@@ -169,7 +175,7 @@ StartClosing ==
   /\ opc' = "collect" /\ lockRun' = TRUE /\ closing' = TRUE
   /\ nloop' = IF Defect = "errsEarly" THEN nearly ELSE Len(regs) + GraceN
   /\ cpc' = [j \in DOMAIN cpc |-> IF \E x \in DOMAIN regs : regs[x] = j THEN "spawned" ELSE cpc[j]]
-  /\ gpc' = IF grace THEN "spawned" ELSE "none"
+  /\ gpc' = IF Installed THEN "spawned" ELSE "none"
   /\ UNCHANGED <<kind, nr, nc, grace, mrunning, rl, apr, now, running, closeCh, stopped, closeFS, pcan, ctx, rpc, hpc, icnt, ierrs,
                  runid, nearly, regs, cres, garm, ccnt, cerrs, retErr, apc, kpc, nrun, c>>
 
@@ -180,11 +186,11 @@ CloserBegin(j) ==
   /\ UNCHANGED <<kind, nr, nc, grace, mrunning, rl, apr, now, running, closing, closeCh, stopped, closeFS, lockRun, pcan, ctx, rpc, hpc, icnt, ierrs,
                  opc, runid, nearly, nloop, regs, cres, gpc, garm, ccnt, cerrs, retErr, apc, kpc, nrun>>
 
-CErrId(j, cl) == CASE cl = "err" -> KId[j] [] cl = "kcanceled" -> KCId[j] [] OTHER -> ""
+CErrId(j, cl) == CASE cl = "err" -> KId[j] [] cl = "kcanceled" -> KCId[j] [] cl = "kraw" -> "canceled" [] OTHER -> ""
 CloserReleaseId(j, cl, id) ==
   /\ cpc[j] = "run"
   /\ cpc' = [cpc EXCEPT ![j] = "sent"]
-  /\ cres' = [cres EXCEPT ![j] = id]
+  /\ cres' = [cres EXCEPT ![j] = IF Defect = "filterCloserCanceled" /\ cl \in {"kcanceled", "kfmt", "kraw"} THEN "" ELSE id]
   /\ c' = Feed(c, <<E("closerreturn") @@ [j |-> j, class |-> cl, id |-> id]>>)
   /\ UNCHANGED <<kind, nr, nc, grace, mrunning, rl, apr, now, running, closing, closeCh, stopped, closeFS, lockRun, pcan, ctx, rpc, hpc, icnt, ierrs,
                  opc, runid, nearly, nloop, regs, gpc, garm, ccnt, cerrs, retErr, apc, kpc, nrun>>
@@ -196,7 +202,7 @@ GraceBegin ==
   /\ UNCHANGED <<kind, nr, nc, grace, mrunning, rl, apr, now, running, closing, closeCh, stopped, closeFS, lockRun, pcan, ctx, rpc, hpc, icnt, ierrs,
                  opc, runid, nearly, nloop, regs, cpc, cres, ccnt, cerrs, retErr, apc, kpc, nrun, c>>
 GraceFire ==
-  /\ gpc = "timing" /\ now >= garm + GraceTicks
+  /\ gpc = "timing" /\ now >= garm + grace /\ (GraceRecheck => ~closeFS)
   /\ gpc' = "sent"
   /\ c' = Feed(c, <<E("fatal")>>)
   /\ UNCHANGED <<kind, nr, nc, grace, mrunning, rl, apr, now, running, closing, closeCh, stopped, closeFS, lockRun, pcan, ctx, rpc, hpc, icnt, ierrs,
@@ -262,11 +268,23 @@ AddCloserFinish(j) ==
 (* Close - closer.go:202-212 *)
 CloseCall(k) ==
   /\ kind = "rcm" /\ kpc[k] = "idle"
-  /\ kpc' = [kpc EXCEPT ![k] = "wait"]
-  /\ closeCh' = TRUE
-  /\ running' = TRUE
-  /\ stopped' = (stopped \/ ~running)
   /\ c' = Feed(c, <<E("closecall") @@ [id |-> k]>>)
+  /\ IF Defect = "closeNonAtomic" /\ ~closeCh
+       THEN /\ kpc' = [kpc EXCEPT ![k] = "sawopen"] /\ UNCHANGED <<closeCh, running, stopped>>
+       ELSE /\ kpc' = [kpc EXCEPT ![k] = "wait"]
+            /\ closeCh' = TRUE
+            /\ running' = TRUE
+            /\ stopped' = (stopped \/ ~running)
+  /\ UNCHANGED <<kind, nr, nc, grace, mrunning, rl, apr, now, closing, closeFS, lockRun, pcan, ctx, rpc, hpc, icnt, ierrs,
+                 opc, runid, nearly, nloop, regs, cpc, cres, gpc, garm, ccnt, cerrs, retErr, apc, nrun>>
+(* defect "closeNonAtomic" only: the call found closeCh open and now closes it - a second close of a channel panics *)
+CloseSecond(k) ==
+  /\ kpc[k] = "sawopen"
+  /\ IF closeCh
+       THEN /\ kpc' = [kpc EXCEPT ![k] = "done"] /\ c' = Feed(c, <<E("panic") @@ [what |-> "close"]>>)
+            /\ UNCHANGED <<closeCh, running, stopped>>
+       ELSE /\ kpc' = [kpc EXCEPT ![k] = "wait"] /\ c' = c
+            /\ closeCh' = TRUE /\ running' = TRUE /\ stopped' = (stopped \/ ~running)
   /\ UNCHANGED <<kind, nr, nc, grace, mrunning, rl, apr, now, closing, closeFS, lockRun, pcan, ctx, rpc, hpc, icnt, ierrs,
                  opc, runid, nearly, nloop, regs, cpc, cres, gpc, garm, ccnt, cerrs, retErr, apc, nrun>>
 CloseRet(k) ==
@@ -309,7 +327,7 @@ InternalExcept(hj) ==
   \/ \E j \in DOMAIN cpc : CloserBegin(j) \/ Recv(j)
   \/ GraceBegin \/ GraceFire \/ GraceRelease \/ CloseFSAct \/ RecvGrace \/ Finish \/ RunRet
   \/ \E j \in LateIds \ {hj} : AddCloserFinish(j)
-  \/ \E k \in DOMAIN kpc : CloseRet(k)
+  \/ \E k \in DOMAIN kpc : CloseRet(k) \/ CloseSecond(k)
 Internal == InternalExcept(0)
 
 (* the environment of the exhaustive check: to keep the state space small, AddCloser and Close calls are issued in *)
@@ -331,7 +349,8 @@ Advance(t) ==
   /\ now' = t
   /\ UNCHANGED <<kind, nr, nc, grace, mrunning, rl, apr, running, closing, closeCh, stopped, closeFS, lockRun, pcan, ctx, rpc, hpc, icnt, ierrs,
                  opc, runid, nearly, nloop, regs, cpc, cres, gpc, garm, ccnt, cerrs, retErr, apc, kpc, nrun, c>>
-Tick == Quiescent /\ gpc = "timing" /\ now < MaxT /\ Advance(now + 1)
+Tick == /\ Quiescent /\ now < MaxT /\ Advance(now + 1)
+        /\ gpc = "timing" \/ (grace >= 0 /\ ~Installed /\ opc = "collect")     \* only while the passing of time can matter
 
 Quiesce ==
   /\ Quiescent
